@@ -1,4 +1,6 @@
 import FimVerif.Proofs.Lemmas.C14Any
+import FimVerif.Proofs.Lemmas.C14Frame
+import FimVerif.Generated.CbmCfg
 /-!
 # C14 - combined broker model: merge is order-independent, unmerge is its inverse, rollback restores a snapshot
 
@@ -419,17 +421,76 @@ theorem merge_on_networkx_store (c : Graph) (a : Adm) :
 example : vanishes (mergeN Graph.empty exPlain).2 exPlain = true ∧ (merge (mergeN Graph.empty exPlain).2 exPlain).1 = some .query ∧
     (mergeN (mergeN Graph.empty exPlain).2 exPlain).1 = none := by decide
 
-/-! ## sources -/
+/-! ## the tie to the source: generated plans and tables (`gen/cbmcfg.py` → `Generated/CbmCfg.lean`) -/
 
-/-- No operation of a broker history touches the delegation models lying next to the combined model.  (True by
-construction of the functional model; the content of this clause is carried by the correspondence, which compares the
-sources' snapshots after every step, and by C04's frame theorem for the store.) -/
-theorem merge_sources_untouched (w : World) (ops : List Op) : (run w ops).srcs = w.srcs := by
-  induction ops generalizing w with
-  | nil => rfl
-  | cons op ops ih =>
-    simp only [run]
-    rw [ih]
-    cases op <;> simp only [step, snapshot, rollback] <;> (try split) <;> (try split) <;> rfl
+/-- The calls `merge_adm` / `unmerge_adm` / `snapshot` / `rollback` make - which, on which graph object, in which order, as
+observed on the code of the current tree - are the ones the abstract model mirrors.  (The driver executes the *generated*
+plans; a re-ordered, dropped or re-addressed call changes them and breaks this equation.) -/
+theorem plans_are_the_modelled_ones : FimVerif.Gen.CbmCfg.plans = modelPlans := by decide
+
+/-- The model's decision functions agree with the code on every row of the generated tables:
+`rewrite_delegations` = `Deleg.rekey`, `_update_node_delegations` = `conflict` + `Deleg.take` (for either kind of delegation),
+the delegation part of `unmerge_adm` = `Deleg.unmerge`, its provenance part = `provUnmerge`; `merge_nodes` keeps the caller's
+node and edge data (first wins), drops the other node and leaves no extra attribute. -/
+theorem tables_agree_with_model :
+    (FimVerif.Gen.CbmCfg.rekeyTable.all fun r =>
+      match r.input.rekey "G", r.out, r.err with
+      | .ok d, some d', none => d == d'
+      | .error e, none, some e' => e == e'
+      | _, _, _ => false) = true ∧
+    (FimVerif.Gen.CbmCfg.takeTable.all fun r =>
+      let cl : Node := ⟨"n", [], [], r.cbm, .absent⟩
+      let tl : Node := ⟨"n", [], [], r.adm, .absent⟩
+      let cc : Node := ⟨"n", [], [], .absent, r.cbm⟩
+      let tc : Node := ⟨"n", [], [], .absent, r.adm⟩
+      (if conflict cl tl then none else some ((mergeNode "G" cl tl).ldel)) == r.out &&
+      (if conflict cc tc then none else some ((mergeNode "G" cc tc).cdel)) == r.out) = true ∧
+    (FimVerif.Gen.CbmCfg.unmergeDelegTable.all fun r =>
+      match r.input.unmerge "g" with
+      | .ok d => r.out == some d
+      | .error _ => r.out == none) = true ∧
+    (FimVerif.Gen.CbmCfg.provTable.all fun r => provUnmerge "g" r.input == r.out) = true ∧
+    FimVerif.Gen.CbmCfg.mergeNodesPolicy =
+      [("shared-property", "caller"), ("caller-only-property", "kept"), ("other-only-property", "dropped"),
+       ("shared-edge-data", "caller"), ("shared-edge-extra-keys", ""), ("other-node", "gone"), ("caller-node-count", "3")] ∧
+    (FimVerif.Gen.CbmCfg.labelDelegationsProp, FimVerif.Gen.CbmCfg.capacityDelegationsProp, FimVerif.Gen.CbmCfg.provenanceProp,
+      FimVerif.Gen.CbmCfg.provenanceField, FimVerif.Gen.CbmCfg.graphIdProp) =
+      ("LabelDelegations", "CapacityDelegations", "StructuralInfo", "adm_graph_ids", "GraphID") := by
+  decide
+
+/-! ## sources: merging does not alter the source models (frame on the shared store) -/
+
+/-- the broker the driver runs: the generated plans on the model of the shared store -/
+theorem generated_plans_safe : FimVerif.Gen.CbmCfg.plans.Safe := plans_are_the_modelled_ones ▸ modelPlans_safe
+
+/-- **One call**: `merge_adm` (also when it raises half-way) leaves the view of every graph of the shared store other than
+the combined model and its temporary graph as it was - the merged delegation model and the other source models in
+particular.  `KeysOK`: internal node ids are unique and below the store's allocator. -/
+theorem merge_does_not_alter_other_graphs (e : Env) (order : List String) {s : Store} (hk : s.KeysOK) {g : String}
+    (hc : g ≠ e.cbm) (ht : g ≠ e.tmp) :
+    (s.mergeAdm FimVerif.Gen.CbmCfg.plans e order).2.view g = s.view g :=
+  (mergeAdm_frame generated_plans_safe e order hk hc ht).1
+
+/-- **All histories**: whatever merge / unmerge / snapshot / rollback calls a broker makes on the shared store, the view of
+every graph other than the combined model, the temporary graphs and the snapshots never changes. -/
+theorem sources_untouched_by_every_history (N : Names) {g : String} (hc : g ≠ N.cbm) (ht : ∀ n, g ≠ N.tmp n)
+    (hs : ∀ k, g ≠ N.snap k) (ops : List SOp) {w : SWorld} (hk : w.s.KeysOK) :
+    (srun FimVerif.Gen.CbmCfg.plans N w ops).s.view g = w.s.view g :=
+  (srun_frame generated_plans_safe N hc ht hs ops hk).1
+
+def exNames : Names := ⟨"CBM", fun n => "tmp-" ++ toString n, fun k => "snap-" ++ toString k⟩
+def exStore : Store := (Store.empty.load exSite).load exNet
+
+/-- non-vacuity: a store holding the site and the network model; the history changes the store, the sources' views stay -/
+example : exStore.KeysOK ∧
+    (let w := srun FimVerif.Gen.CbmCfg.plans exNames ⟨exStore, 0, 0⟩
+        [.merge "adm-site" [], .merge "adm-net" ["port"], .snapshot, .unmerge "adm-site", .rollback 0]
+     (w.s.view "CBM").nodes.length = 3 ∧ w.s.view "adm-net" = exNet.g ∧ w.s.view "adm-site" = exSite.g) := by
+  refine ⟨load_keysOK (load_keysOK Store.empty_keysOK exSite exSite_WF.nodup) exNet exNet_WF.nodup, by decide⟩
+
+/-- The abstract world of the theorems above keeps the sources by construction; the content of the clause is in
+`sources_untouched_by_every_history` (model of the store) and in the correspondence, which compares the real sources'
+snapshots with the store model's after every step. -/
+theorem merge_sources_untouched (w : World) (ops : List Op) : (run w ops).srcs = w.srcs := run_srcs w ops
 
 end FimVerif.C14
